@@ -1,5 +1,5 @@
 """C16 - configuration switches and defaults mean what the guide says (exhaustive product)."""
-import itertools
+import zlib, itertools
 import json
 import os
 
@@ -16,7 +16,10 @@ LOCK = ["absent", "valid_ahead", "corrupt", "empty", "out_of_range", "negative",
         "absent+stale_scratch", "valid_ahead+stale_scratch",
         # a valid lock reached through a symbolic link; locks that are not text at all (UTF-16 as a PowerShell redirect writes it,
         # a Latin-1 byte, binary junk): unparsable, hence ignored
-        "valid_ahead_via_symlink", "utf16", "latin1_byte", "binary", "valid_ahead_readonly", "duplicate_key"]
+        "valid_ahead_via_symlink", "utf16", "latin1_byte", "binary", "valid_ahead_readonly", "duplicate_key",
+        # a valid lock that is longer than anything the tool writes: a licence header put in front of it by a header tool (260 bytes to
+        # 70 KiB, so that the key lies beyond any fixed-size first read), the same text after the key, CRLF line ends
+        "valid_ahead_long_header", "valid_ahead_long_trailer", "valid_ahead_crlf"]
 MODE = ["check", "edit"]
 TREE = ["missing", "none_missing"]
 LOCKVAL = 1000
@@ -45,6 +48,8 @@ LOCK_TEXT = {"absent": None, "valid_ahead": core.lock_text(LOCKVAL), "corrupt": 
              "nested_key": core.LOCK_HEADER + "cache:\n  next_reference_id: 2\n",
              "absent+stale_scratch": None, "valid_ahead+stale_scratch": core.lock_text(LOCKVAL),
              "valid_ahead_via_symlink": core.lock_text(LOCKVAL), "valid_ahead_readonly": core.lock_text(LOCKVAL),
+             "valid_ahead_long_header": core.lock_text(LOCKVAL), "valid_ahead_long_trailer": core.lock_text(LOCKVAL),
+             "valid_ahead_crlf": core.lock_text(LOCKVAL),
              "utf16": b"\xff\xfe" + core.lock_text(2).encode("utf-16-le"),
              "latin1_byte": (core.LOCK_HEADER + "# gr\xfc\xdfe\nnext_reference_id: 2\n").encode("latin-1"),
              "binary": bytes(range(256)) * 3,
@@ -96,6 +101,13 @@ def run_point(built, p, cfgform="absolute"):
         if LOCK_TEXT[lk] is not None:
             text = core.lock_text(LOCKVAL) if lk.startswith("valid_ahead") else LOCK_TEXT[lk]
             target = lockp
+            if lk in ("valid_ahead_long_header", "valid_ahead_long_trailer"):
+                size = [260, 700, 9000, 70000][zlib.crc32(repr(p).encode()) % 4]
+                licence = "# SPDX-License-Identifier: MIT\n# Copyright (c) the project authors\n" + \
+                          "".join("# licence text, line %d of a header a header tool keeps in front of every file\n" % i for i in range(size // 80 + 1))
+                text = (licence + text) if lk.endswith("header") else (text + licence)
+            if lk == "valid_ahead_crlf":
+                text = text.replace("\n", "\r\n")
             if lk == "valid_ahead_via_symlink":
                 target = os.path.join(box.proj, "shared", "workspace.lock")
                 os.makedirs(os.path.dirname(target))
@@ -356,9 +368,10 @@ def main(tier):
     ck.extra["product_points"] = len(points)
     ck.extra["error_points"] = len(ERRORS) * 4
     ck.rule = ("full product use_cache{omitted,true,false} x structured{omitted,true,false} x extensions{omitted,[rs],[rs,x],[x]} x "
-               "lock{absent,valid-ahead,corrupt,empty,out-of-range,negative,float} x mode x tree{missing,none missing} = %d points (exhaustive:true refers to this "
+               "lock{%d states: absent, valid (also via symlink, read-only, behind a 260 B-70 KiB comment header, followed by one, CRLF), "
+               "unparsable in 12 ways, with a stale scratch copy} x mode x tree{missing,none missing} = %d points (exhaustive:true refers to this "
                "product) + %d error exits; observables: exit status, snapshot diff, lock before/after, whether the lock file was "
-               "opened (shim), IDs chosen, token style; distinct_nontrivial = distinct points executed" % (len(points), len(ERRORS) * 2))
+               "opened (shim), IDs chosen, token style; distinct_nontrivial = distinct points executed" % (len(LOCK), len(points), len(ERRORS) * 2))
     ck.assumptions = ["expectation table derived from docs/source/configuration.rst and the property text",
                       "an idle run (nothing to insert) may rewrite a valid lock with the same value"]
     return ck.finish()
